@@ -331,6 +331,11 @@ def _m_field(f, sp):
     d["start"] = f["start"]
     if f["end"] is not None:
         d["end"] = f["end"]
+    if sp.rng and sp.rng.random() < 0.3:
+        # the order of the keys of a field map is free (`end` before `start`, `base` last, ...): an equivalent spelling
+        items = list(d.items())
+        sp.rng.shuffle(items)
+        d = dict(items)
     return d
 
 
